@@ -14,17 +14,19 @@ import (
 )
 
 type SpecEnv struct {
-	x          *Exec
-	s          *State
-	names      map[string]Val
-	fr         *Frame // optional: loop invariants resolve source variables
-	heap       map[string]*Term
-	alloc      *Term
-	old        *SpecEnv
-	bound      map[string]Val
-	fnPkg      *types.Package
-	entryAlloc *Term
-	pure       bool // no state available (spec function bodies, lemmas)
+	x            *Exec
+	s            *State
+	names        map[string]Val
+	fr           *Frame // optional: loop invariants resolve source variables
+	heap         map[string]*Term
+	alloc        *Term
+	old          *SpecEnv
+	bound        map[string]Val
+	fnPkg        *types.Package
+	noPositional bool
+	outer        map[string]Val // parameters of the function under verification, visible after the frame's own names
+	entryAlloc   *Term
+	pure         bool // no state available (spec function bodies, lemmas)
 }
 
 func (env *SpecEnv) curHeap() map[string]*Term {
@@ -64,6 +66,12 @@ func (x *Exec) specBool(s *State, fr *Frame, e *Expr, extra map[string]Val) (*Te
 	env := &SpecEnv{x: x, s: s, fr: fr, names: extra, fnPkg: pkgOf(fr.fn)}
 	if x.fn == fr.fn {
 		env.old = &SpecEnv{x: x, s: s, fr: fr, names: x.params, heap: x.entryHeap, alloc: x.entryAlloc, fnPkg: pkgOf(fr.fn)}
+		env.entryAlloc = x.entryAlloc
+	} else if fr.depth > 0 {
+		// a loop contract of the function under verification evaluated inside an inlined helper
+		// (the loop was extracted): the helper's own names first, then the outer parameters
+		env.outer = x.params
+		env.old = &SpecEnv{x: x, s: s, fr: fr, outer: x.params, heap: x.entryHeap, alloc: x.entryAlloc, fnPkg: pkgOf(fr.fn)}
 		env.entryAlloc = x.entryAlloc
 	}
 	return env.boolExpr(e)
@@ -125,8 +133,45 @@ func (env *SpecEnv) lookupName(name string) (Val, bool, error) {
 				}
 			}
 		}
+		if v, ok := env.outer[name]; ok {
+			return v, true, nil
+		}
+		// a local the contract names but the code no longer has: the contract recorded the
+		// function's locals in declaration order; the local now declared at the same position is
+		// the renamed one (only tried when the function still declares as many locals)
+		if !env.noPositional {
+			if fc := env.x.contractFor(env.fr.fn); fc != nil && len(fc.Locals) > 0 {
+				now := declaredLocals(env.fr.fn)
+				if len(now) == len(fc.Locals) {
+					known := map[string]bool{}
+					for _, n := range now {
+						known[n] = true
+					}
+					if !known[name] {
+						for i, ln := range fc.Locals {
+							if ln == name && now[i] != name && !inList(fc.Locals, now[i]) {
+								sub := *env
+								sub.noPositional = true
+								if v, ok, err := sub.lookupName(now[i]); ok || err != nil {
+									return v, ok, err
+								}
+							}
+						}
+					}
+				}
+			}
+		}
 	}
 	return Val{}, false, nil
+}
+
+func inList(l []string, s string) bool {
+	for _, x := range l {
+		if x == s {
+			return true
+		}
+	}
+	return false
 }
 
 // loadLV reads a location in the environment's heap (which may be the old heap).
